@@ -45,13 +45,50 @@ pub fn cases(rng: &mut Rng, tier: &str) -> (Vec<Case>, bool) {
             // text and trace records pending)
             text.push_str("\n9940 PRINT \"HOW MANY\";: INPUT N9\n9941 PRINT \"GOT\"; N9");
         }
+        if i % 5 == 4 {
+            // legal but rarely written: unary plus in front of a string, NOT of a string, a comparison of strings as a number
+            text.push_str("\n9930 W$ = \"WORLD\" : V$ = +W$ : PRINT +\"HELLO \"; V$; NOT W$; (W$ = V$) + 1");
+        }
         if i % 4 == 2 {
             // line numbers beyond what any classic BASIC allowed, up to the largest the store takes
             text.push_str("\n63999 X9 = 1\n64000 PRINT \"BIG\"; X9\n100000 Y9 = 2\n4294967296 PRINT Y9\n18446744073709551615 END");
         }
+        cases.push(file_case(rng, tier, i, &text, p.features.join("+"), false));
+    }
+    // files that are well-formed by construction (each of the rarely written but legal forms alone, and all of them
+    // together): the static check passes them, so file mode RUNS them - and shows what the piped session shows
+    let forms = [
+        "20 W$ = \"WORLD\" : V$ = +W$ : PRINT +\"HELLO \"; V$",
+        "20 A = +1 : B = -A : C = NOT A : PRINT +A; -B; NOT C; +(A); -(-A)",
+        "20 PRINT (\"a\" = \"a\") + 1; (\"a\" < \"b\") * 2; NOT (\"a\" > \"b\")",
+        "20 DIM A$(2) : A$(1) = +\"x\" : PRINT A$(1); +A$(2); \"|\"",
+        "20 DEF FNS$(T$) = +T$\n30 PRINT FNS$(\"hey\")",
+        "20 IF +\"a\" = \"a\" THEN PRINT \"yes\" ELSE PRINT \"no\"",
+        "20 FOR I = +1 TO +3 STEP +1 : PRINT I; : NEXT I : PRINT",
+        "20 DATA +5, -5, \"+s\"\n30 READ A, B, C$ : PRINT A; B; C$",
+        "20 X = 1 : GOSUB 40 : PRINT X : END\n40 X = X + +1 : RETURN",
+        "20 PRINT 1 AND \"a\" = \"a\"; 0 OR \"b\" <> \"b\"",
+    ];
+    let mut all = String::from("10 PRINT \"START\"");
+    for (k, f) in forms.iter().enumerate() {
+        let text = format!("10 PRINT \"START\"\n{}", f);
+        cases.push(file_case(rng, tier, k, &text, "curated".into(), true));
+        for l in f.split('\n') {
+            let (n, rest) = l.split_once(' ').unwrap();
+            let n: u64 = n.parse().unwrap();
+            let rest = rest.replace("GOSUB 40", &format!("GOSUB {}", 100 * (k + 1) + 40)).replace(": END", &format!(": GOTO {}", 100 * (k + 2) + 20));
+            all.push_str(&format!("\n{} {}", 100 * (k as u64 + 1) + n, rest));
+        }
+    }
+    all.push_str(&format!("\n{} PRINT \"END\"", 100 * (forms.len() + 1)));
+    cases.push(file_case(rng, tier, 0, &all, "curated-all".into(), true));
+    (cases, false)
+}
+
+fn file_case(rng: &mut Rng, tier: &str, i: usize, text: &str, tag: String, curated: bool) -> Case {
         // A: load the file vs type its lines, in-process (implementation vs model, and against each other)
         let mut w = Walk::new(false, false);
-        w.op(&format!("load {}", hexs(&text)));
+        w.op(&format!("load {}", hexs(text)));
         w.op("snap");
         let s1 = w.last();
         w.start("LIST");
@@ -86,7 +123,7 @@ pub fn cases(rng: &mut Rng, tier: &str) -> (Vec<Case>, bool) {
             format!("snap-eq {} {} except=reads", a2, b2),
         ];
         // B: the real binary, file mode vs piped interactive mode, for option combinations
-        let combos: Vec<(bool, bool, bool)> = if tier == "thorough" || i % 6 == 0 {
+        let combos: Vec<(bool, bool, bool)> = if tier == "thorough" || i % 6 == 0 || curated {
             (0..8).map(|k| (k & 1 != 0, k & 2 != 0, k & 4 != 0)).collect()
         } else {
             vec![(rng.chance(1, 2), rng.chance(1, 2), rng.chance(1, 2))]
@@ -94,10 +131,12 @@ pub fn cases(rng: &mut Rng, tier: &str) -> (Vec<Case>, bool) {
         // a program that did not end within the in-process step budget would only time out here
         let combos = if w.cut { vec![] } else { combos };
         for (ww, tt, ss) in combos {
-            w.op(&format!("cli {} {} {} {}", ww as u8, tt as u8, ss as u8, hexs(&text)));
+            w.op(&format!("cli {} {} {} {}", ww as u8, tt as u8, ss as u8, hexs(text)));
             checks.push(format!("cli-same {}", w.last()));
+            if curated {
+                // a file that is well-formed by construction: the static check has nothing to refuse
+                checks.push(format!("cli-ran {}", w.last()));
+            }
         }
-        cases.push(Case { ops: w.ops, checks, tag: p.features.join("+"), nontrivial: true, show: text.replace('\n', " | ") });
-    }
-    (cases, false)
+        Case { ops: w.ops, checks, tag, nontrivial: true, show: text.replace('\n', " | ") }
 }
